@@ -787,6 +787,35 @@ func (m *Model) apply(args []string, now time.Duration) mResult {
 		return res(expExact("["+strings.Join(parts, " ")+"]"), false)
 	case "scan":
 		return m.applyScan(a)
+	case "within":
+		// only the whole-world query: WITHIN key IDS BOUNDS -90 -180 90 180
+		if len(a) != 7 || lower(a[1]) != "ids" || lower(a[2]) != "bounds" || a[3] != "-90" || a[4] != "-180" || a[5] != "90" || a[6] != "180" {
+			return mResult{undef: true}
+		}
+		var want []string
+		col := m.cols[a[0]]
+		for _, id := range sortedIDs(col) {
+			if col[id].spatial {
+				want = append(want, id)
+			}
+		}
+		if len(want) >= 100 {
+			return mResult{undef: true}
+		}
+		return res(func(v rv) error {
+			if v.T != '*' || len(v.A) != 2 || v.A[1].T != '*' {
+				return fmt.Errorf("within reply shape: %s", clipStr(v.String(), 200))
+			}
+			var got []string
+			for _, x := range v.A[1].A {
+				got = append(got, x.S)
+			}
+			sort.Strings(got)
+			if strings.Join(got, ",") != strings.Join(want, ",") {
+				return fmt.Errorf("within returned ids %v want %v", got, want)
+			}
+			return nil
+		}, false)
 	case "jget":
 		return m.applyJget(a)
 	case "jset":
